@@ -34,7 +34,7 @@ def setup_lane(i):
     sh("rsync -a --exclude=.cache --exclude=.git --exclude=seeded --exclude=evidence/replays %s/ %s/verif/" % (ROOT, lane))
     for f in ("harness/Cargo.toml", "harness/build.sh"):
         p = "%s/verif/%s" % (lane, f)
-        s = open(p).read().replace("/repo", repo)
+        s = re.sub(r"(?<![\w.])/repo(?![.\w])", repo, open(p).read())
         open(p, "w").write(s)
     # reuse the compiled Coq development and model (identical sources): copy the build products
     os.makedirs(lane + "/verif/.cache", exist_ok=True)
